@@ -125,9 +125,41 @@ func (t c16type) xlit(v string) string {
 	return "'" + v + "'"
 }
 
+// usesWhenOnContainer: a uses-level when also guards containers of the grouping; its context node is the
+// parent of the uses. One coarse signature: the library copies the when onto the container and evaluates it
+// relative to the container itself.
+func (p c16) usesWhenOnContainer(c *core.Ctx) {
+	body := "grouping gg { container g3 { leaf z { type string; } } } leaf o { type int32; } uses gg { when \"o>5\"; } leaf q { type string; }"
+	m, err := parser.LoadModuleFromString(nil, "module m { namespace \"urn:m\"; prefix m; revision 2020-01-01; "+body+" }")
+	if err != nil {
+		c.Violate("when/uses-when-on-container-member", "load: %v", err)
+		return
+	}
+	for _, tc := range []struct {
+		o    int
+		want bool
+	}{{9, true}, {1, false}} {
+		c.Eval()
+		doc := fmt.Sprintf("{\"o\":%d,\"g3\":{\"z\":\"w\"},\"q\":\"keep\"}", tc.o)
+		n, _ := nodeutil.ReadJSON(doc)
+		var got string
+		var rerr error
+		if c.Guard("uses when on container", func() { got, rerr = nodeutil.WriteJSON(node.NewBrowser(m, n).Root()) }) {
+			continue
+		}
+		visible := strings.Contains(got, "\"g3\"")
+		if rerr != nil || visible != tc.want || !strings.Contains(got, "keep") {
+			c.Violate("when/uses-when-on-container-member", "uses gg { when \"o>5\"; } with o=%d: container g3 visible=%v (want %v), error=%v\nschema: %s\ndata: %s\noutput: %s", tc.o, visible, tc.want, rerr, body, doc, got)
+		}
+	}
+}
+
 func (p c16) Run(c *core.Ctx, idx int) {
 	ts := c16types()
 	t := ts[idx%len(ts)]
+	if idx%97 == 0 {
+		p.usesWhenOnContainer(c)
+	}
 	placement := []string{"when-container", "when-leaf", "when-leaf-list", "when-uses", "when-augment", "where-top", "where-nested", "filter", "when-edit"}[(idx/len(ts))%9]
 	ops := c16ops
 	if t.name == "boolean" {
@@ -170,7 +202,7 @@ func (p c16) when(c *core.Ctx, t c16type, op, lit, placement string) {
 		}
 	case "when-uses":
 		mkYang = func(cond string) string {
-			return fmt.Sprintf("grouping gg { leaf g { type string; } leaf g2 { type int32; } } leaf o { %s %s } uses gg { %s } leaf q { type string; }", t.yang, dflt, cond)
+			return fmt.Sprintf("grouping inner { leaf g2 { type int32; } } grouping gg { leaf g { type string; } uses inner; } leaf o { %s %s } uses gg { %s } leaf q { type string; }", t.yang, dflt, cond)
 		}
 	case "when-augment":
 		mkYang = func(cond string) string {
@@ -229,7 +261,9 @@ func (p c16) when(c *core.Ctx, t c16type, op, lit, placement string) {
 			switch placement {
 			case "when-container":
 				doc = fmt.Sprintf("{\"g\":{%s\"p\":\"x\"},\"q\":\"keep\"}", ov)
-			case "when-leaf", "when-uses", "when-edit":
+			case "when-uses":
+				doc = fmt.Sprintf("{%s\"g\":\"x\",\"g2\":7,\"q\":\"keep\"}", ov)
+			case "when-leaf", "when-edit":
 				doc = fmt.Sprintf("{%s\"g\":\"x\",\"q\":\"keep\"}", ov)
 			case "when-leaf-list":
 				doc = fmt.Sprintf("{%s\"g\":[\"x\",\"y\"],\"q\":\"keep\"}", ov)
@@ -259,7 +293,7 @@ func (p c16) when(c *core.Ctx, t c16type, op, lit, placement string) {
 				c.Violate("when/error/"+sig, "read failed: %v / %v\n%s", err, rerr, wit)
 				continue
 			}
-			visible := strings.Contains(got, "\"g\"")
+			visible := strings.Contains(got, "\"g\"") || strings.Contains(got, "\"g2\"") || strings.Contains(got, "\"g3\"")
 			if want {
 				// true: behaves as if there was no when
 				if got != ref {
